@@ -81,7 +81,7 @@ fn number(rng: &mut Rng) -> String {
         17 => format!("{}e", rng.below(10)),
         18 => format!("0x"),
         19 => format!("1e{}", rng.range(-999, 999)),
-        20 => format!("{}.{}.{}", rng.below(10), rng.below(10), rng.below(10)),
+        20 => if rng.chance(1, 2) { format!("{}.{}.{}", rng.below(10), rng.below(10), rng.below(10)) } else { (*rng.pick(&["exp(1000)", "ln(0)", "ln(-1)", "-exp(1000)", "exp(-1000)", "sqrt(2)", "asin(2)", "exp(710)"])).to_string() },
         _ => format!("-{}", rng.below(100)),
     }
 }
@@ -193,7 +193,7 @@ fn target(db: &Db, rng: &mut Rng) -> String {
         17 => format!("({} + {})^-1", rng.below(3), rng.below(3)),
         18 => format!("{} << {}", unit(db, rng), rng.below(5)),
         19 => format!("{} >> {}", number(rng), rng.below(5)),
-        20 => format!("{}^{}", unit(db, rng), rng.range(-3, 4)),
+        20 => if rng.chance(2, 3) { format!("{}^{}", unit(db, rng), rng.range(-3, 4)) } else { format!("{}^{}{}", rng.pick(&["m", "1", "s", "(1 m)", "2"]), rng.pick(&["", "-"]), boundary(rng)) },
         21 => "".into(),
         22 => format!("{} ->", unit(db, rng)),
         23 => format!("-{}", unit(db, rng)),
@@ -347,6 +347,7 @@ pub fn run(o: &Opts) -> i32 {
     for q in &seeds { emit(q, "seed", &mut req, &mut aux); }
     writeln!(req, "reset").unwrap(); writeln!(aux, "{}", json!({"k": "reset"})).unwrap();
     emit("", "session-start", &mut req, &mut aux);
+    let mut nreg = 0usize;
     for q in ["\\u", "\\u{110000}", "\\uffffffffff", "1 m -> m << 1", "1 -> 2 >> 1", "now -> +25:00", "now -> -24:00", "#2020-01-01 00:00:00.0000000000#", "#2020-01-01 00:00:00 +999999999:00#",
               "1 -> digits 2147483647", "1 -> digits 4294967296", "1 m -> m / (0 + 1)", "1 -> (0+1)^-1", "2^ln(-1)", "1 << ln(-1)", "water + gold", "mass of (water + 1 m)", "((m^2147483647)^2147483647)^3",
               "helium + 2 kg helium", "2 mol helium + 3 m neon", "water + 1", "water - gold", "water * gold", "water / gold", "2 water + 3 water", "1 kg water + 1 m^3 water", "gold + 2 mol gold -> kg",
@@ -354,9 +355,17 @@ pub fn run(o: &Opts) -> i32 {
               "(m^2147483647)^2147483647 * (m^2147483647)^2147483647 -> (m^2147483647)^2147483647", "(m^2147483647)^2147483647 * (m^2147483647)^2147483647", "1 / ((m^2147483647)^2147483647)^2 -> m", "(m^-2147483647)^2147483647 / (m^2147483647)^2147483647",
               "1^2147483648", "1^-2147483648", "1^2147483647", "1^-2147483647", "1 m^(2^31)", "0^2147483648", "1 << 2147483648", "1 >> 2147483648", "0 << 2147483647", "1 >> -2147483648", "2^(2^31 - 1) - 2^(2^31 - 1)",
               "1/7 -> digits 18446744073709551616", "1/7 -> digits 18446744073709551615", "1 -> base 18446744073709551616", "1½ cup -> ml", "3 m * 2²", "0.٣", "1٣", "1e٣", "٣",
+              "1 m -> m^-3000000000", "1 -> 2^-2147483648", "3 s -> s^-1e400", "1 m -> m^2147483648", "1 -> 1^-2147483649", "1 m -> m^(2^31)", "1 m -> (1 m)^-2147483648",
+              "exp(1000) xor 1", "1 or ln(0)", "7 and -exp(1000)", "ln(-1) and 1", "exp(1000) mod 3", "3 mod exp(1000)", "exp(1000) -> digits 5", "ln(-1) -> hex", "exp(1000) << 1", "1 << exp(1000)",
+              "floor(exp(1000))", "exp(1000) - exp(1000)", "exp(1000) hours", "exp(1000) m -> ft", "ln(-1) m -> ft;inch", "1 -> exp(1000)", "1 m -> exp(1000) m", "sqrt(exp(1000))^2",
+              "m^100000", "kg^99999", "1 m^65536", "(m s)^123456", "m^-100000 s^100000", "1e-2147483648", "1e2147483648", "1e-2147483649", "1.5e-2147483648", "0e-2147483648", "1e-9999999999999999999",
+              "factorize (m^2147483647)^2147483647 (m^2147483647)^2147483647 (m^4)^2147483647 m", "(s^-2147483647)^2147483647 (s^-2147483647)^2147483647 (s^-4)^2147483647 s^-2",
               "x mod 0", "1 mod 0", "0^-1", "1 << -1", "1 -> base 1", "1 -> base 37", "#01:30 Europe/London#", "1e-400 -> digits 5", "1/0", "ans", "_", "1 m -> ;", "-> m", "->", "1 ->", "", " ", "\t", "\u{0}",
               "factorize kg m^2 s^-2 A^-1 K^-1", "units for 1", "search", "5 hours -> minute;second;", "1 -> hex m", "atan2(1)", "sqrt()", "hypot(1,2,3)", "exp(1000)", "exp(1e10)", "ln(0)", "log(-1)", "asin(2)",
               "1 degC + 1 degC", "5 degC m", "degC", "°", "1 ° C", "-5 °F -> °C", "1 K -> degC", "NaN", "inf", "1e400", "1e-400", "0x", "0b2", "1__0", "1e", "1e+", "1.5.5", "1|0", "1|", "|1", "'", "''", "'a", "\"", "\"a", "#", "##", "#a"] {
+        // short sessions: a worker that is killed on a time-out replays the session so far
+        if nreg % 8 == 7 { writeln!(req, "reset").unwrap(); writeln!(aux, "{}", json!({"k": "reset"})).unwrap(); emit("", "session-start", &mut req, &mut aux); }
+        nreg += 1;
         emit(q, "regression", &mut req, &mut aux);
     }
     for _ in 0..nsess {
